@@ -1,7 +1,7 @@
 (* C08 - acceptance is decided exactly by the documented width rules.
    The rules are the declarative judgement ExprRules.has_width (one rule per sentence of the
    property); proofs live in ExprRulesProofs.v. *)
-From HclV Require Import Base Expr ExprRules ExprRulesProofs Generated.
+From HclV Require Import Base Expr ExprRules ExprRulesProofs Generated Build CompleteSpec CompleteProofs.
 Open Scope N_scope.
 
 (* the checker accepts exactly the expressions the rules derive, with exactly the derived width *)
@@ -38,3 +38,15 @@ Example C08_slice_hi_equals_width_accepted :
   check gen_features G8 (fun _ => None) (ESlice (EWire "x") 3 8) = Ok (Bits 5) /\
   check gen_features G8 (fun _ => None) (ESlice (EWire "x") 3 9) = err1 InvalidBitIndex [].
 Proof. vm_compute. split; reflexivity. Qed.
+
+(* program level: a program (statement list) is accepted exactly when it is fault free, where the
+   width clauses of CompleteSpec.fault_free are: every constant and every register initial value
+   has a width under the rules (ff_consts_width, ff_init_width), an initial value's width equals
+   the register's or is unsized (ff_init_eval), and every assigned expression has a width equal
+   to the declared width of its target or unsized (ff_assign_widths / assign_ok) *)
+Theorem C08_program_accepted_iff_rules_hold :
+  forall f is_lower is_upper stmts,
+    (exists p, build_program f gen_fixed is_lower is_upper stmts = Ok p) <->
+    fault_free f gen_fixed is_lower is_upper stmts.
+Proof. exact accepted_iff_fault_free_gen_holds. Qed.
+Print Assumptions C08_program_accepted_iff_rules_hold.
